@@ -51,6 +51,7 @@ def build_inputs(rng, tier):
     cls["deep_bad"] = [nest(101), nest(150), nest(400), nest(150, "a +"), "SELECT " + "CASE WHEN " * 120 + "a" + " THEN 1 END" * 120]
     cls["empty"] = ["", " ", "\n\n", "-- only a comment\n"]
     cls["comments"] = ["SELECT 1 -- c1\n", "/* a */ SELECT /* b */ 2 -- c", "-- x\n-- y\nSELECT a /* z */ FROM t", "SELECT a -- first\nFROM t -- second\nWHERE b = 1 /* third */"]
+    cls["leading_ws"] = ["\n\n  SELECT a\nFROM t", "   SELECT 1", "\n\n\n-- c\n  SELECT 'x", "\t\n \n    SELECT a, b -- c\n  FROM t WHERE", "\n;\n\n  SELECT FROM"]
     cls["untok"] = ["SELECT 'abc", "SELECT \"abc", "SELECT a FROM t WHERE b = 'x\n-- c\n", "SELECT 1 /* c */ \x01", "SELECT `a", "/* c */ SELECT 'unterminated"]
     inputs, index = [], {}
     for c, l in cls.items():
@@ -61,8 +62,8 @@ def build_inputs(rng, tier):
     return inputs, index
 
 
-PARSER_CLASSES = ["valid", "valid", "invalid", "invalid", "semis", "mysql", "deep_ok", "deep_bad", "empty", "comments"]
-TOK_CLASSES = ["valid", "invalid", "comments", "comments", "untok", "untok", "empty", "deep_ok", "semis"]
+PARSER_CLASSES = ["valid", "valid", "invalid", "invalid", "semis", "mysql", "deep_ok", "deep_bad", "empty", "comments", "leading_ws"]
+TOK_CLASSES = ["valid", "invalid", "comments", "comments", "untok", "untok", "empty", "deep_ok", "semis", "leading_ws", "leading_ws"]
 
 
 def pick(rng, index, classes):
@@ -172,7 +173,8 @@ def gen_histories(rng, index, n_random, trace_every):
     tdirty += [[{"op": "setdialect", "in": -1, "opt": "dialect:mysql"}, {"op": b, "in": -1}] for b in ["reset", "putget"]]
     tdirty += [[{"op": "setdialect", "in": -1, "opt": "dialect:mysql"}, {"op": "tokenize", "in": index["comments"][1]}, {"op": "putget", "in": -1}]]
     tdirty += [[{"op": "setlogger", "in": -1, "opt": "logger:on"}, {"op": b, "in": -1}] for b in ["reset", "putget"]]
-    tprobes = [{"op": "tokenize", "in": i} for i in index["comments"][:2] + index["untok"][:2] + index["valid"][:1] + index["empty"][:1]]
+    tdirty += [[{"op": "tokenize", "in": i}] for i in index["empty"][:3] + index["semis"][:2]]
+    tprobes = [{"op": "tokenize", "in": i} for i in index["comments"][:2] + index["untok"][:2] + index["valid"][:1] + index["empty"][:1] + index["leading_ws"]]
     tprobes += [{"op": "tokenizectx", "in": index["comments"][0], "ctx": m} for m in ["bg", "cancelled", "deadline", "poll:1"]]
     tprobes += [{"op": "toolarge", "in": 0}, {"op": "toolargectx", "in": 0, "ctx": "bg"}, {"op": "toolargectx", "in": 0, "ctx": "cancelled"}]
     for ops in tdirty:
